@@ -1,4 +1,4 @@
-//! Shared helpers for all harness domains.
+//! Shared helpers for all harness domains (one binary per domain under src/bin/).
 #![allow(dead_code)]
 use std::sync::Arc;
 use std::time::Duration;
